@@ -20,27 +20,46 @@ EphInit(N, Unrelated, Schemas) ==
       born \in {[a \in AllAgents |-> 0], [a \in AllAgents |-> IF a = "t1" THEN 2 ELSE 0]},
       schema \in Schemas :
      InitWith([agents |-> AllAgents, imported |-> imp, targets |-> {"t1"}, epochs |-> ep, rows |-> rows, obs |-> obs,
-               dup |-> {}, schema |-> schema, nsteps |-> N, born |-> born,
-               engines |-> {1}, sensorOf |-> [s \in {"s1"} |-> 1], tracks |-> [e \in {1} |-> {"t1"}]])
+               dup |-> {}, schema |-> schema, near |-> {}, nsteps |-> N, born |-> born,
+               engines |-> {1}, sensorOf |-> [s \in {"s1"} |-> 1], tracks |-> [e \in {1} |-> {"t1"}],
+               site |-> [s \in {"s1"} |-> 1]])
+
+\* Sub-step epochs: the importer database also holds records at instants that are not scenario epochs - inside the
+\* wall-clock second of a scenario epoch (before / after it) or between two steps -, for every set of Epoch rows and
+\* every set of ephemeris rows of the two scenario agents at the scenario's own epochs (so: a gap at a scenario epoch
+\* whose second holds a foreign record, a whole scenario epoch absent while its second is populated, ...).
+NearU == ({"t1", "s1"} \X {1} \X {"before"}) \cup {<<"t1", 2, "after">>, <<"s1", 2, "mid">>}
+NearInit ==
+  \E ep \in SUBSET (1..2) :
+   \E imp \in {{"t1"}, {"s1"}, {"t1", "s1"}}, rows \in SUBSET (AllAgents \X ep), near \in SUBSET NearU,
+      born \in {[a \in AllAgents |-> 0], [a \in AllAgents |-> IF a = "t1" THEN 2 ELSE 0]} :
+     InitWith([agents |-> AllAgents, imported |-> imp, targets |-> {"t1"}, epochs |-> ep, rows |-> rows, obs |-> {},
+               dup |-> {}, schema |-> "full", near |-> near, nsteps |-> 2, born |-> born,
+               engines |-> {1}, sensorOf |-> [s \in {"s1"} |-> 1], tracks |-> [e \in {1} |-> {"t1"}],
+               site |-> [s \in {"s1"} |-> 1]])
 
 TB == {"t1", "t2"}
 SB == {"s1", "s2"}
 ObsB == ({1} \X TB \X SB) \cup {<<2, "t1", "s2">>, <<2, "t2", "s1">>}
 DupB == {<<1, "t1", "s2">>, <<2, "t2", "s1">>}
-ObsInitD(Dups) ==
+Apart == [s \in SB |-> IF s = "s1" THEN 1 ELSE 2]
+Together == [s \in SB |-> 1]          \* both sensors at IDENTICAL coordinates (in one engine or in different engines)
+ObsInitD(Dups, site, ObsU) ==
   \E eng \in {{1}, {1, 2}} :
-   \E imp \in {{}, {"t1"}}, obs \in SUBSET ObsB, so \in [SB -> eng],
+   \E imp \in {{}, {"t1"}}, obs \in SUBSET ObsU, so \in [SB -> eng],
       tr \in {f \in [eng -> SUBSET TB] : UNION {f[e] : e \in eng} = TB} :
     \E dup \in SUBSET (obs \cap Dups) :
      InitWith([agents |-> TB \cup SB, imported |-> imp, targets |-> TB, epochs |-> 1..2, rows |-> imp \X (1..2), obs |-> obs,
-               dup |-> dup, schema |-> IF imp = {} THEN "minimal" ELSE "full",
-               nsteps |-> 2, born |-> [a \in TB \cup SB |-> 0], engines |-> eng, sensorOf |-> so, tracks |-> tr])
+               dup |-> dup, schema |-> IF imp = {} THEN "minimal" ELSE "full", near |-> {},
+               nsteps |-> 2, born |-> [a \in TB \cup SB |-> 0], engines |-> eng, sensorOf |-> so, tracks |-> tr, site |-> site])
 
-ObsInit == ObsInitD(DupB)
-ObsInitNoDup == ObsInitD({})
+ObsInitDup == ObsInitD(DupB, Apart, ObsB)
+ObsInitNoDup == ObsInitD({}, Apart, ObsB)
+ObsInitTogether == ObsInitD({}, Together, {1} \X TB \X SB)
+ObsInit == ObsInitDup \/ ObsInitTogether
 Both == {"full", "minimal"}
-MCInitQuick == EphInit(2, {"x1", "x2"}, Both) \/ EphInit(3, {"x1"}, {"full"}) \/ ObsInit
-MCInitThorough == EphInit(2, {"x1", "x2"}, Both) \/ EphInit(4, {"x1"}, Both) \/ EphInit(3, {"x1", "x2"}, Both) \/ ObsInit
+MCInitQuick == EphInit(2, {"x1", "x2"}, Both) \/ EphInit(3, {"x1"}, {"full"}) \/ NearInit \/ ObsInit
+MCInitThorough == EphInit(2, {"x1", "x2"}, Both) \/ EphInit(4, {"x1"}, Both) \/ EphInit(3, {"x1", "x2"}, Both) \/ NearInit \/ ObsInit
 \* the part of the space in which each named deviation must be refuted
 MCInitCounts == EphInit(2, {"x1", "x2"}, {"full"})
 MCInitCounts2 == EphInit(2, {"x1", "x2"}, Both)
